@@ -30,6 +30,8 @@ use hyper_util::rt::TokioIo;
 use std::convert::Infallible;
 // TODO: the code here that depends on nix should move into erbium-net
 use erbium_net::nix;
+#[cfg(erbium_verif)]
+use erbium_net::sim::tokio;
 
 #[derive(Debug)]
 pub enum Error {
